@@ -96,6 +96,47 @@ def r1_class_table(ctx):
             ctx.bad("poolset-new|tables", clo.where(), "pool i is not built from SLOT_SIZES[i] and SLOT_COUNTS[i] (%s)" % (detail if pn else "no Pool::new call"))
 
 
+def r1b_backing_sizes(ctx):
+    """The arena blocks behind a pool are sized for what is stored in them."""
+    fl = ctx.need(P + "FreeList::new")
+    ctx.touch(fl)
+    la = [c for c in fl.calls() if (c.callee or "").endswith("from_size_align")]
+    if la:
+        size = sh(ne(fl.deep(la[0].args[0]))).replace(" ", "")
+        gargs = [" ".join(c.gargs) for c in fl.calls() if (c.callee or "").endswith("size_of")]
+        if size in ("Mul(capacity,size_of())", "Mul(size_of(),capacity)") and all("u32" in g for g in gargs):
+            ctx.ok("freelist|index-array-size", fl.where(la[0].block), "capacity * size_of::<u32>() bytes for capacity u32 indices")
+        else:
+            ctx.bad("freelist|index-array-size|%s" % size[:30], fl.where(la[0].block), "the free list's index array is laid out with `%s` bytes for `capacity` u32 entries: pushes beyond that write slot indices into the neighbouring pool block (a live buffer of another class is overwritten)" % size)
+    else:
+        ctx.bad("freelist|no-layout", fl.where(), "FreeList::new no longer computes a layout")
+    cap_field = None
+    for b in sorted(fl.live):
+        for s in fl.blocks[b]["s"]:
+            if s["rv"]["k"] == "agg" and s["rv"]["adt"].endswith("FreeList"):
+                fields = ctx.lib.fields(P + "FreeList")
+                vals = dict(zip(fields, [sh(ne(fl.deep(o))) for o in s["rv"]["ops"]]))
+                cap_field = vals.get("capacity")
+    if cap_field == "capacity":
+        ctx.ok("freelist|capacity-field", fl.where(), "capacity field = number of entries allocated")
+    else:
+        ctx.bad("freelist|capacity-field", fl.where(), "FreeList.capacity is `%s`" % cap_field)
+    sb = ctx.need(P + "SlotBlock::new")
+    ctx.touch(sb)
+    la = [c for c in sb.calls() if (c.callee or "").endswith("from_size_align")]
+    if la and sh(ne(sb.deep(la[0].args[0]))).replace(" ", "") in ("Mul(slot_size,slot_count)", "Mul(slot_count,slot_size)") and la[0].args[1].get("int") == 8:
+        ctx.ok("slotblock|size", sb.where(la[0].block), "slot_size * slot_count bytes, 8-aligned")
+    else:
+        ctx.bad("slotblock|size", sb.where(), "SlotBlock::new lays out `%s`" % (sh(ne(sb.deep(la[0].args[0]))) if la else "?"))
+    pn = ctx.need(P + "Pool::new")
+    ctx.touch(pn)
+    fnew = [c for c in pn.calls() if c.callee == P + "FreeList::new"]
+    if fnew and sh(ne(pn.deep(fnew[0].args[1]))) == "slot_count":
+        ctx.ok("pool|freelist-capacity", pn.where(fnew[0].block), "free list holds slot_count indices (every slot can be free at once)")
+    else:
+        ctx.bad("pool|freelist-capacity", pn.where(), "the free list is created for `%s` entries, not for slot_count" % (sh(ne(pn.deep(fnew[0].args[1]))) if fnew else "?"))
+
+
 def sets_of(p, field):
     return [e for e in p["events"] if e[0] == "call" and e[1].endswith("Cell::set") and field in e[3][0]]
 
@@ -173,6 +214,19 @@ def r3_class_checked_release(ctx):
             ctx.ok("%s|class-from-size" % fid.split("::")[-1], fn.where(scs[0].block), "size_class(size)")
         else:
             ctx.bad("%s|class-from-size" % fid.split("::")[-1], fn.where(), "%s does not derive the class from size_class(size)" % fid)
+    # allocation and release pick the pool by the very class size_class(size) returned: a slot taken from any other class
+    # can never find its way back (release recomputes the class from the size)
+    for fid in (P + "PoolSet::alloc", P + "PoolSet::dealloc"):
+        fn = ctx.need(fid)
+        for c in fn.calls():
+            if c.callee in (P + "Pool::alloc", P + "Pool::dealloc", P + "Pool::contains"):
+                recv = sh(ne(fn.deep(c.args[0]))).replace(" ", "")
+                key = "%s|%s|pool-index" % (fid.split("::")[-1], c.callee.split("::")[-1])
+                if recv == "self.pools[size_class(size)@Some.0]":
+                    ordn = sum(1 for r in ctx.records if r["rule"] == ctx.rule and r["instance"].split("#")[0] == key)
+                    ctx.ok("%s#%d" % (key, ordn + 1), fn.where(c.block), "pools[size_class(size)]")
+                else:
+                    ctx.bad("%s|%s" % (key, recv[:40]), fn.where(c.block), "%s uses pool `%s`, not pools[size_class(size)]: alloc and release no longer agree on the class of a buffer" % (fid.split("::")[-1], recv[:60]))
     pd = ctx.need(P + "PoolSet::dealloc")
     for c in pd.calls_to(P + "Pool::dealloc"):
         ok = False
@@ -273,7 +327,7 @@ def r4_who_releases(ctx):
         ctx.bad("contains|half-open|%s" % [x[0] for x in lt], sbc.where(), "SlotBlock::contains is not `offset < slot_size * slot_count` (%s): the one-past-the-end address would count as pooled" % lt)
 
 
-RULES = [("C12-R1", r1_class_table), ("C12-R2", r2_conservation), ("C12-R3", r3_class_checked_release), ("C12-R4", r4_who_releases)]
+RULES = [("C12-R1", r1_class_table), ("C12-R1b", r1b_backing_sizes), ("C12-R2", r2_conservation), ("C12-R3", r3_class_checked_release), ("C12-R4", r4_who_releases)]
 
 EXPLANATION = (
     "R1: the evaluated class table (SLOT_SIZES, SLOT_COUNTS, CLASS_COUNT) is checked for shape and every integer constant of "
